@@ -33,7 +33,7 @@ def generate(ctx):
                "B": rng.randint(1, 4), "steps": rng.randint(1, 3), "seed": rng.randrange(1 << 30),
                # with per-synapse delays the synaptic data have the per-output form (B x out x in): hold the input constant for
                # longer than the longest delay and the delayed map is the undelayed one
-               "delay_steps": rng.choice([None, None, 2, 3]), "via_init": rng.random() < 0.4}
+               "delay_steps": rng.choice([None, None, 2, 3]), "via_init": rng.random() < 0.4, "zero_delay": rng.random() < 0.2}
     if th:
         grid = [(hw, hw, c, f, kh, kw, s, p, d) for hw in range(3, 10) for c in (1, 2, 3) for f in (1, 2, 3)
                 for kh in (1, 2, 3) for kw in (1, 2, 3) for s in (1, 2, 3) for p in (0, 1, 2) for d in (1, 2)
@@ -52,7 +52,7 @@ def generate(ctx):
                 "bias": rng.random() < 0.5, "B": rng.randint(1, 4), "seed": rng.randrange(1 << 30),
                 "stride2": rng.choice([None, [rng.randint(1, 2), rng.randint(1, 3)]]),
                 # per-synapse delays (the per-filter synaptic layout): input held constant past the longest delay
-                "delay_steps": rng.choice([None, None, None, 1, 2]),
+                "delay_steps": rng.choice([None, None, None, 1, 2]), "zero_delay": rng.random() < 0.2,
                 # memory layout of the assigned weight (values are what counts, not strides)
                 "weight_layout": rng.choice(["contiguous", "contiguous", "channels_last", "transposed_view", "expanded"]),
                 "via_init": rng.random() < 0.25}
@@ -156,7 +156,7 @@ def _linear(ctx, desc):
     B = desc["B"]
     try:
         K = desc.get("delay_steps")
-        dl = float(K) if K else None
+        dl = float(K) if K else (0.0 if desc.get("zero_delay") else None)     # delay=0.0: a delay parameter that delays nothing
         ini = {}
         if desc.get("via_init"):
             # parameters given through the documented initialiser callables instead of assignment after construction
@@ -246,8 +246,11 @@ def _conv(ctx, desc):
                        bias_init=lambda x_: torch.randn(x_.shape, generator=g).to(x_.dtype),
                        delay_init=lambda x_: torch.randint(0, (K or 0) + 1, x_.shape, generator=g).to(x_.dtype))
             ctx.count("initialiser_built_conv_connections")
+        zd = bool(desc.get("zero_delay")) and not K
+        if zd:
+            ctx.count("conv_built_with_zero_delay")      # documented: delay=0.0 is legal and "uses no delays"
         conn = Conv2D(h, w, c, f, 1.0, (kh, kw), stride=stride, padding=p, dilation=d, synapse=_syn(), bias=desc["bias"],
-                      batch_size=B, delay=(float(K) if K else None), **ini)
+                      batch_size=B, delay=(float(K) if K else (0.0 if zd else None)), **ini)
         conn.to(torch.float64)
         if K:
             if not desc.get("via_init"):
